@@ -78,7 +78,7 @@ PROPS = {
         "design": "DESIGN.md §3 C10",
     },
     "C14": {
-        "engines": [DECODE],
+        "engines": [DECODE, dict(CODEC, args=SMALL)],
         "text": "Lean 4 theorems C14_unknown_step (a record with an undeclared number is appended byte for byte, in arrival order, to that level's unknown set and nothing else changes), C14_known_never_unknown, C14_reencode_unknown_last, C14_discard (decoding with DiscardUnknown = decoding without, then erasing every unknown set at every depth), together with C03 (unknown sets equal the reference's). Tied on every run by streams with unknown records of every wire type incl. nested groups injected at every level, both flags, compared through the struct view with the model and with real dynamicpb.",
         "note": "trusted: Lean kernel; correspondence sampling; GetUnknown/SetUnknown are covered by the reflection model (C08)",
         "design": "DESIGN.md §3 C14",
